@@ -98,6 +98,8 @@ func main() {
 		cmdC05(*tier, *seed, *out, *stats, *replay)
 	case "C06":
 		cmdC06(*tier, *seed, *out, *stats, *replay)
+	case "C07":
+		cmdC07(*tier, *seed, *out, *stats, *replay)
 	case "C11":
 		cmdC11(*tier, *seed, *out, *stats, *replay)
 	case "C12":
